@@ -48,7 +48,7 @@ Definition judge (c : case) : Z :=
                        (@even_spec_reduced FloatNum xs ys tx ty red knees ext) out
   | CEvenK xs ys tx ty knees ext out =>
       let n := length xs in
-      if negb (curve_ok xs ys tx ty && (1 <=? length knees) && nondecreasing knees && forallb (fun k => k <? n) knees) then 600%Z
+      if negb (curve_ok xs ys tx ty && nondecreasing knees && forallb (fun k => k <? n) knees) then 600%Z
       else judge_out n (@add_points_even_knees FloatNum xs ys tx ty knees ext)
                        (@even_spec_knees FloatNum xs ys tx ty knees ext) out
   end.
